@@ -465,6 +465,9 @@ func (e *Engine) havocLocation(env *Env, st *State, loc Expr) {
 			for _, k := range ghostKeys(g) {
 				arr := e.heapTerm(st, k.name, k.sort)
 				fv := e.ctx.Declare("hv$"+x.Name, k.sort[len("(Array Int ") : len(k.sort)-1])
+				if isGhostLen(k.name) {
+					e.ctx.Assume(sx("<=", "0", fv))
+				}
 				e.heapSet(st, k.name, k.sort, ref, sx("store", arr, ref, fv))
 			}
 			return
@@ -578,6 +581,13 @@ func (e *Engine) checkPost(fr *Frame, st *State, vals []Val, pos string) {
 			if i == 0 {
 				env.names["\\result"] = v
 			}
+		}
+	}
+	if len(fc.Apply) > 0 {
+		loc := *env
+		loc.locals = true
+		for _, ap := range fc.Apply {
+			e.applyLemma(&loc, st, ap)
 		}
 	}
 	for i, en := range fc.Ensures {
